@@ -2,6 +2,18 @@
 HOOK_COMMITS = []
 NOT_APPLICABLE = {}
 CLAIMS = {
+    "C03": dict(
+        text="spec/Assembly.tla models the scatter-add computed through the reduction map memoised per (dof_n, isMatrix, Ndof, contributing groups in feeding order) "
+        "on meshes with one to three element groups (boundary groups, mixed QUAD4+TRI3, a renumbered chain, an orphan node), slots absent for some groups, real and "
+        "complex values, system-size changes (Lagrange/Dirichlet rows) and mesh replacement between assemblies. TLC checks Exact (every assembled K, C, M, F equals the "
+        "definition of the scatter-add) on every reachable state, a renumbering theorem (P A P^T), and rejects three defective key designs. TLC behaviours are replayed on "
+        "a _Simu subclass returning the same integer element arrays: Assembly() output is compared bit for bit with TLC's matrices and the memo size with the model; real "
+        "Elastic/Thermal simulations (incl. a mixed-group mesh) are compared with an independent dense loop on first and repeated assemblies.",
+        note="Trusted: TLC, the element-value function shared by model and harness, exactness of integer sums in floating point. Simulation-mode sampling of histories (seeded) on top of "
+        "the exhaustive bounded model.",
+        technique="TLA+ model of memoised assembly, TLC exhaustive + defective variants; TLC behaviours replayed bit-for-bit into Assembly()",
+        design_ref="DESIGN.md 6/C03",
+    ),
     "C14": dict(
         text="spec/Lifecycle.tla models one action per public call (parameter/density/damping setters, Translate/Rotate/Symmetry, coordinate setter, mesh "
         "replacement, BC clearing/adding incl. Lagrange conditions, scheme switch, Get_K_C_M_F, Solve, Save_Iter, Set_Iter, ...) with the implementation's own "
